@@ -143,9 +143,14 @@ class Inner(loops.Constructive):
         return res
 
 
+# loop selectors (frontend.resolve_loop_selectors): the marching loop assigns the running state fftpi, the
+# level loop inside it is the innermost loop that stores into fftp, the final level loop stores fftp only
+IVP_LOOPS = ("outer:fftpi", "inner:fftp", "outer:fftp!fftpi")
+
+
 def _loop_specs(inp, props):
     outer = Outer(inp, props)
-    return {0: outer, 1: Inner(outer, props), 2: Inner(outer, props)}, outer
+    return {IVP_LOOPS[0]: outer, IVP_LOOPS[1]: Inner(outer, props), IVP_LOOPS[2]: Inner(outer, props)}, outer
 
 
 def compile_ivp(ctx, ns, specs):
@@ -168,7 +173,7 @@ def generate_bookkeeping(ctx, props):
 
         def __getattr__(self, a):
             return getattr(holder["specs"][self.k], a)
-    f = compile_ivp(ctx, ns, {0: Proxy(0), 1: Proxy(1), 2: Proxy(2)})
+    f = compile_ivp(ctx, ns, {k: Proxy(k) for k in IVP_LOOPS})
 
     def thunk(run):
         inp = Inputs(run)
@@ -301,13 +306,13 @@ def generate_step(ctx, props):
 
         def __getattr__(self, a):
             return getattr(holder["specs"][self.k], a)
-    f = compile_ivp(ctx, ns, {0: Proxy(0), 1: Proxy(1), 2: Proxy(2)})
+    f = compile_ivp(ctx, ns, {k: Proxy(k) for k in IVP_LOOPS})
 
     def thunk(run):
         inp = Inputs(run)
         sink = {}
         outer = StepExtract(inp, props, sink)
-        holder["specs"] = {0: outer, 1: Anything(outer), 2: Anything(outer)}
+        holder["specs"] = {IVP_LOOPS[0]: outer, IVP_LOOPS[1]: Anything(outer), IVP_LOOPS[2]: Anything(outer)}
         run.scope = LABEL
         run.props = set(props)
         harness.call(run, f, *inp.args())
